@@ -278,6 +278,7 @@ def main():
         # ---------------- sound_event_classification and sound_event_detection (same events on both sides)
         nclips = s.rng.randint(1, 3)
         truth3, rows3, preds, anns, per_event = [], [], [], [], {}
+        det_truth, det_rows, preds_d, anns_d = [], [], [], []
         for ci in range(nclips):
             clip = g.clip(ci)
             ne = s.rng.randint(0, 3) if (ci > 0 or nclips > 1) else s.rng.randint(1, 3)
@@ -293,6 +294,22 @@ def main():
                 rows3.append(row)
             anns.append(data.ClipAnnotation(clip=clip, sound_events=a_ev))
             preds.append(data.ClipPrediction(clip=clip, sound_events=p_ev))
+            # detection only: an annotated event that no prediction overlaps (unlabelled or out of vocabulary: it counts as a
+            # correctly predicted "none" item) and a predicted event that overlaps no annotation (true class "none")
+            a_x, p_x = list(a_ev), list(p_ev)
+            if s.rng.random() < 0.6:
+                se = data.SoundEvent(recording=g.rec, geometry=data.BoundingBox(coordinates=[10 * ci + 4.1, 100.0, 10 * ci + 4.4, 900.0]))
+                a_x.append(data.SoundEventAnnotation(sound_event=se, tags=s.rng.choice([[], [g.other]])))
+                det_truth.append(None)
+                det_rows.append(np.zeros(len(g.vocab)))
+            if s.rng.random() < 0.6:
+                se = data.SoundEvent(recording=g.rec, geometry=data.BoundingBox(coordinates=[10 * ci + 3.1, 100.0, 10 * ci + 3.4, 900.0]))
+                sc, row = g.single_scores()
+                p_x.append(data.SoundEventPrediction(sound_event=se, tags=g.ptags(sc)))
+                det_truth.append(None)
+                det_rows.append(row)
+            anns_d.append(data.ClipAnnotation(clip=clip, sound_events=a_x))
+            preds_d.append(data.ClipPrediction(clip=clip, sound_events=p_x))
         if not truth3:
             continue
         S3 = np.array(rows3)
@@ -309,6 +326,16 @@ def main():
                             t, row = per_event[m.source.sound_event.uuid]
                             check_values(s, task, "match", m.metrics, {"True Class Probability": r_true_class_probability(t, row)}, key3)
             run_task(s, task, fn, preds, anns, g.vocab, truth3, S3, key3, tmp, per_item_se)
+        if det_truth:
+            truth4, S4 = truth3 + det_truth, np.array(rows3 + det_rows)
+            key4 = key3 + f" + {len(det_truth)} unmatched events"
+            s.case(None, ("sound_event_detection+unmatched", k), sample=dict(clips=[len(a.sound_events) for a in anns_d], truth=truth4, scores=S4.tolist()))
+
+            def per_item_det(ev):
+                check_values(s, "sound_event_detection", "evaluation", ev.metrics, single_label_refs(truth4, S4), key4)
+                for c in ev.clip_evaluations:
+                    check_mean(s, "sound_event_detection", "clip", c.score, [m.score for m in c.matches], key4)
+            run_task(s, "sound_event_detection", sound_event_detection, preds_d, anns_d, g.vocab, truth4, S4, key4, tmp, per_item_det)
     return s.finish("one case per (round, task); rounds draw vocabulary, items, truths and scores at random")
 
 
